@@ -292,6 +292,11 @@ def sepCount : List Nat → Nat → Nat
   | [], _ => 0
   | d :: ds, n => (if n % prod (d :: ds) = 0 then 1 else 0) + sepCount ds n
 
+/-- number of trailing zero coordinates of a multi-index -/
+def trailingZeros : List Nat → Nat
+  | [] => 0
+  | i :: is => if is.all (· == 0) then (if i = 0 then 1 else 0) + is.length else trailingZeros is
+
 /-- What `write` must emit: the elements in storage order, the `k`-th and `k+1`-th separated by
     `sep (sepCount dims (k+1))`. -/
 def specPiecesFrom {α} (dims : List Nat) : Nat → List α → List (Piece α)
